@@ -368,7 +368,7 @@ def check_c06_end(w):
         if t['type'] != 'download' or t['spec']['dst'] != 'path' or t['outcome'] is None:
             continue
         p = t['path']
-        temps = [f for f in w.fs.files if f.startswith(p + '.')]
+        temps = w.fs.temps_of(p)
         if temps and not removed_failed:
             w.violation('C06', 'temp-left',
                         't%d done (%s) but temporary file(s) %r remain'
@@ -471,7 +471,7 @@ def check_c07(w):
                                 'aborted (state %s)' % (t['idx'], ev['how'], u['id'], u['state']),
                                 {'variant': 'abort'})
             if t['type'] == 'download' and t['spec'].get('dst') == 'path':
-                temps = [x for x in w.fs.files if x.startswith(t['path'] + '.')]
+                temps = w.fs.temps_of(t['path'])
                 if temps:
                     w.violation('C07', 'cleanup-missing',
                                 't%d was cancelled (%s) but temporary file(s) %r remain'
@@ -486,6 +486,47 @@ def check_c07(w):
                     'manager.shutdown(%s) raised %r'
                     % (_shutdown_args(w), se[0]),
                     {'exc': type(se[0]).__name__})
+
+
+def check_c08_hung(w):
+    """on_done runs exactly once in EVERY outcome: in a deadlocked run (nothing
+    can run any more) a transfer whose outcome is already final - status
+    failed / cancelled / success - and whose subscribers never got on_done
+    will never get it."""
+    f = w.sim.failure
+    if f is None or f[0] != 'deadlock' or w.benign_leftover:
+        return
+    for t in w.transfers:
+        if t['future'] is None or not t['subs']:
+            continue
+        coord = t['future']._coordinator
+        if coord.status in ('failed', 'cancelled', 'success') and \
+                not any(c[1] == 'done' for c in t['callbacks']):
+            ev = getattr(coord, '_done_event', None)
+            if ev is not None and not ev.is_set():
+                w.violation('C08', 'done-missing',
+                            't%d: the outcome is final (%s) but on_done was never delivered '
+                            'and nothing can run any more' % (t['idx'], coord.status))
+                return
+
+
+def check_c07_hung(w):
+    """Cancelling makes every not-yet-finished transfer FINISH with the
+    cancellation error: a run that hangs with a cancelled transfer that was
+    never announced done breaks that clause (whatever else C04 says)."""
+    f = w.sim.failure
+    if f is None or f[0] not in ('deadlock', 'step-budget') or w.benign_leftover:
+        return
+    for t in w.transfers:
+        if t['future'] is None or t['cancel'] is None or t['outcome'] is not None:
+            continue
+        ev = getattr(t['future']._coordinator, '_done_event', None)
+        if ev is not None and not ev.is_set():
+            c = t['cancel']
+            w.violation('C07', 'cancelled-transfer-never-finishes',
+                        't%d was cancelled via %s (status %s at the time) but is never announced '
+                        'done: result() blocks forever' % (t['idx'], c['how'], c.get('status')))
+            return
 
 
 def _shutdown_args(w):
@@ -742,6 +783,19 @@ def check_c13_e2e(w):
     window between two transfer events."""
     cfg = w.config
     R = cfg.get('max_bandwidth')
+    if R and w.multi:
+        # (two managers: the windows below would mix their limits)  This
+        # manager's only limited traffic is one consumption of a bucket that has
+        # seen nothing yet; it is admitted at once whatever the other manager does
+        mine = [s for s in w.bw_sleeps if s[1] in ('request', 'submission', 'io')]
+        if mine:
+            w.violation('C13', 'delayed-below-limit',
+                        'a manager whose whole limited traffic is one body below the '
+                        'batching threshold was made to wait %r s while ANOTHER manager was '
+                        'transferring: the limit and its bookkeeping are per manager'
+                        % ([round(s[2], 6) for s in mine][:4],),
+                        {'variant': 'other-manager'})
+        return
     ev = sorted(w.bw_events)
     if not R or len(ev) < 2:
         return
@@ -816,4 +870,6 @@ def evaluate(w):
         # a hung run: only oracles that are meaningful on partial histories
         check_effects(w)
         check_c18(w)
+        check_c07_hung(w)
+        check_c08_hung(w)
     return w
